@@ -11,6 +11,7 @@ CONSTANTS
   FragLen2 = 0
   FragLenSJ = 0
   FragAll = FALSE
+  FragAlpha = "frag"
   WithPlumb = TRUE
   WithFrag = FALSE
 INVARIANTS TypeOK DesignOK MachineOK Emitted
